@@ -53,4 +53,137 @@ theorem C44_clean_data (c : Cache) (inv : Inv c) (addr : Bytes) :
   refine ⟨r1, fun k hk => r2 _ (fun hp => hk ?_), b, i⟩
   rw [List.cons_prefix_cons] at hp; exact hp.2
 
+/-! ## Never again
+
+`Sys` = one interop service call of an executing contract (NeoVM or wasm), with an arbitrary executing address / arguments;
+`Tx` = invoke transaction (`cache.Reset()`, any list of calls, `Commit()` iff none failed), deploy transaction, block commit.
+Every sequence is covered, including ones no real execution can produce. The operator's `removeDestroyedContract(a)`
+(global-params contract, the designed way to lift a marker) is excluded by hypothesis. -/
+
+/-- The full statement, for a variant of the service calls.
+(1) inside an execution: once `a` reads as destroyed, after ANY further calls it still does and no storage value has appeared
+or changed under `a` (values can only disappear);
+(2) across transactions: once the marker of `a` is committed to the block overlay, after ANY transactions the same holds for
+the committed state, and a deploy transaction for `a` is refused. -/
+def C44_full_statement (v : Variant) : Prop :=
+  (∀ (track h : Nat) (c : Cache) (a : Bytes) (calls : List Sys), Inv c → a.length = 20 → isDestroyed c a = true →
+    (∀ s ∈ calls, s.WF ∧ s ≠ .removeDestroyed a) →
+    ∀ c', runCalls v track h c calls = some c' →
+      isDestroyed c' a = true ∧ isPresent c' a = false ∧
+      ∀ k, a <+: k → c'.get stStorage k = c.get stStorage k ∨ c'.get stStorage k = []) ∧
+  (∀ (track : Nat) (c : Cache) (a : Bytes) (txs : List Tx), Inv c → a.length = 20 → c.backend.get (stDestroyed :: a) ≠ [] →
+    (∀ t ∈ txs, t.WF ∧ t.noRemove a) →
+    (runTxs v track c txs).backend.get (stDestroyed :: a) ≠ [] ∧
+    (∀ k, a <+: k → (runTxs v track c txs).backend.get (stStorage :: k) = c.backend.get (stStorage :: k) ∨
+      (runTxs v track c txs).backend.get (stStorage :: k) = []) ∧
+    ∀ h val, ((Tx.deploy h a val).run v track (runTxs v track c txs)).2 = .err)
+
+/-- **Never again** — holds in full for the variant in which the storage writes of both VMs check that the contract whose
+storage they write still exists (`Variant.sound`). -/
+theorem C44_never_again : C44_full_statement .sound := by
+  refine ⟨?_, ?_⟩
+  · intro track h c a calls inv ha hd hall c' hr
+    obtain ⟨_, k2, k3⟩ := runCalls_keeps .sound track h a ha calls c inv hd
+      (fun s hs => ⟨(hall s hs).1, (hall s hs).2, Or.inl rfl⟩) c' hr
+    exact ⟨k2, isPresent_false_of _ _ (Or.inl k2), k3⟩
+  · intro track c a txs inv ha hm hall
+    obtain ⟨k1, k2, k3⟩ := runTxs_keeps .sound track a ha txs c inv hm
+      (fun t ht => ⟨(hall t ht).1, (hall t ht).2, Or.inl rfl⟩)
+    exact ⟨k2, k3, fun h val => (deploy_refused .sound track _ k1 a k2 h val).1⟩
+
+/-- As shipped the same holds for every sequence that contains no storage write executed in the name of `a` itself
+(`Storage.Put/Delete` with `a`'s context, wasm `storage_write/delete` while `a` is the executing contract): deploy
+transactions, `Contract.Create`, migrations to `a`, and the writes of every other contract never touch a destroyed address. -/
+theorem C44_never_again_partial :
+    (∀ (track h : Nat) (c : Cache) (a : Bytes) (calls : List Sys), Inv c → a.length = 20 → isDestroyed c a = true →
+      (∀ s ∈ calls, s.WF ∧ s ≠ .removeDestroyed a ∧ ¬ s.writesAs a) →
+      ∀ c', runCalls .asShipped track h c calls = some c' →
+        isDestroyed c' a = true ∧ isPresent c' a = false ∧
+        ∀ k, a <+: k → c'.get stStorage k = c.get stStorage k ∨ c'.get stStorage k = []) ∧
+    (∀ (track : Nat) (c : Cache) (a : Bytes) (txs : List Tx), Inv c → a.length = 20 → c.backend.get (stDestroyed :: a) ≠ [] →
+      (∀ t ∈ txs, t.WF ∧ t.noRemove a ∧ t.noWriteAs a) →
+      (runTxs .asShipped track c txs).backend.get (stDestroyed :: a) ≠ [] ∧
+      (∀ k, a <+: k → (runTxs .asShipped track c txs).backend.get (stStorage :: k) = c.backend.get (stStorage :: k) ∨
+        (runTxs .asShipped track c txs).backend.get (stStorage :: k) = []) ∧
+      ∀ h val, ((Tx.deploy h a val).run .asShipped track (runTxs .asShipped track c txs)).2 = .err) := by
+  refine ⟨?_, ?_⟩
+  · intro track h c a calls inv ha hd hall c' hr
+    obtain ⟨_, k2, k3⟩ := runCalls_keeps .asShipped track h a ha calls c inv hd
+      (fun s hs => ⟨(hall s hs).1, (hall s hs).2.1, Or.inr (hall s hs).2.2⟩) c' hr
+    exact ⟨k2, isPresent_false_of _ _ (Or.inl k2), k3⟩
+  · intro track c a txs inv ha hm hall
+    obtain ⟨k1, k2, k3⟩ := runTxs_keeps .asShipped track a ha txs c inv hm
+      (fun t ht => ⟨(hall t ht).1, (hall t ht).2.1, Or.inr (hall t ht).2.2⟩)
+    exact ⟨k2, k3, fun h val => (deploy_refused .asShipped track _ k1 a k2 h val).1⟩
+
+/-- the address used by the examples: twenty zero bytes -/
+def aEx : Bytes := List.replicate 20 0
+/-- the transaction cache right after `aEx` destroyed itself at height 7 (tracking active from 0): marker pending in the cache -/
+def cDead : Cache := ⟨[(stDestroyed :: aEx, [7, 0, 0, 0])], ⟨[], []⟩⟩
+
+/-- **As shipped the statement is false**: a contract that has just destroyed itself (or migrated away) calls
+`System.Storage.Put` — `checkStorageContext` returns `errors.NewDetailErr(nil, …) = nil` for the missing contract — and the
+value is stored under the destroyed address. The same happens with the wasm `storage_write`. This is the replay of the
+finding `storage-left-under-contract-gone-in-tx-*`. -/
+theorem C44_asShipped_counterexample : ¬ C44_full_statement .asShipped := by
+  intro h
+  have := (h.1 0 7 cDead aEx [.neoPut aEx [1] [2]] ⟨by decide, by decide, by decide⟩ (by decide) (by decide)
+    (by intro s hs; simp only [List.mem_singleton] at hs; subst hs; exact ⟨(by decide : aEx.length = 20), by simp⟩)
+    (cDead.put stStorage (aEx ++ [1]) (rawItem [2])) (by decide)).2.2 (aEx ++ [1]) (by decide)
+  revert this
+  decide
+
+/-- … and so it is with the wasm write -/
+example : ∃ c', runCalls .asShipped 0 7 cDead [.wasmWrite aEx [1] [2]] = some c' ∧ c'.get stStorage (aEx ++ [1]) = rawItem [2] :=
+  ⟨_, rfl, by decide⟩
+
+/-- per call, in a state where `a` reads as destroyed: the sound variant refuses every write in its name; both variants
+refuse to deploy to it (`Contract.Create` leaves the state unchanged: as shipped it "succeeds" with a typed-nil
+`*DeployCode` on the stack, see the finding `engine-panic-nil-deref`), to migrate to it, to destroy it again, to call it. -/
+theorem C44_refused (v : Variant) (track h : Nat) (c : Cache) (a : Bytes) (hd : isDestroyed c a = true) (k val : Bytes) (self : Bytes) :
+    ((Sys.neoPut a k val).run .sound track h c).cache? = none ∧
+    ((Sys.neoDelete a k).run .sound track h c).cache? = none ∧
+    ((Sys.wasmWrite a k val).run .sound track h c).cache? = none ∧
+    ((Sys.wasmDelete a k).run .sound track h c).cache? = none ∧
+    ((Sys.neoCreate a val).run v track h c).cache? = some c ∧
+    ((Sys.wasmCreate a val).run v track h c).cache? = none ∧
+    ((Sys.neoMigrate self a val).run v track h c).cache? = none ∧
+    ((Sys.wasmMigrate self a val).run v track h c).cache? = none ∧
+    ((Sys.neoDestroy a).run v track h c).cache? = none ∧
+    ((Sys.appCall a).run v track h c).cache? = none := by
+  have hg : getContract c a = .destroyed := by unfold getContract; simp [hd]
+  have hp : isPresent c a = false := isPresent_false_of _ _ (Or.inl hd)
+  simp [Sys.run, hg, hp, Outcome.cache?]
+
+/-- a deploy transaction for a destroyed address is refused (and leaves the committed state alone), in both variants -/
+theorem C44_redeploy_refused (v : Variant) (track : Nat) (c : Cache) (inv : Inv c) (a : Bytes)
+    (hm : c.backend.get (stDestroyed :: a) ≠ []) (h : Nat) (val : Bytes) :
+    ((Tx.deploy h a val).run v track c).2 = .err ∧ ((Tx.deploy h a val).run v track c).1.backend = c.backend := by
+  obtain ⟨h1, h2⟩ := deploy_refused v track c inv a hm h val
+  exact ⟨h1, by rw [h2]; rfl⟩
+
+/-! ### Non-vacuity and the activation height -/
+
+/-- a layout with the old contract's entries in all three layers: a pending write and a pending tombstone in the transaction
+cache, an overwrite and a tombstone in the block overlay, the bare-prefix key and a shadowed key in the store; plus a
+neighbour address sharing 19 bytes -/
+def oldEx : Bytes := List.replicate 19 0xaa ++ [0]
+def newEx : Bytes := List.replicate 19 0xaa ++ [1]
+def cEx : Cache :=
+  ⟨[(stStorage :: oldEx ++ [2], [9]), (stStorage :: oldEx ++ [3], [])],
+   ⟨[(stStorage :: oldEx ++ [1], [8]), (stStorage :: oldEx ++ [4], [])],
+    [(stContract :: oldEx, [1]), (stStorage :: oldEx, [5]), (stStorage :: oldEx ++ [1], [6]), (stStorage :: oldEx ++ [3], [7]),
+     (stStorage :: oldEx ++ [4], [7]), (stStorage :: newEx ++ [9], [4])]⟩⟩
+example : Inv cEx := ⟨by decide, by decide, by decide⟩
+example : cEx.iterate oldEx 100 = [(oldEx, [5]), (oldEx ++ [1], [8]), (oldEx ++ [2], [9])] := by decide
+example : (migrate 10 cEx oldEx newEx 10).iterate [] 100 =
+    [(newEx, [5]), (newEx ++ [1], [8]), (newEx ++ [2], [9]), (newEx ++ [9], [4])] := by decide
+example : getContract cEx oldEx = .present [1] ∧ getContract (migrate 10 cEx oldEx newEx 10) oldEx = .destroyed := by decide
+/-- before the activation height no marker is written: the address can be deployed again (by design) -/
+example : getContract (clean 10 cEx oldEx 9) oldEx = .absent ∧ (clean 10 cEx oldEx 9).iterate oldEx 100 = [] ∧
+    ((Tx.deploy 9 oldEx [1]).run .asShipped 10 ((clean 10 cEx oldEx 9).commit)).2 = .ok := by decide
+/-- from the activation height on it cannot -/
+example : ((Tx.deploy 11 oldEx [1]).run .asShipped 10 ((clean 10 cEx oldEx 10).commit)).2 = .err := by decide
+example : isDestroyed cDead aEx = true ∧ Inv cDead := ⟨by decide, by decide, by decide, by decide⟩
+
 end OntVerif.Props.C44
